@@ -42,6 +42,14 @@ def canon_place(body, pl, depth=0):
         if src is not None:
             new = {"l": src["l"], "p": list(src["p"]) + proj}
             return canon_place(body, new, depth + 1)
+    if rv["k"] == "agg" and rv.get("agg") == "tuple" and proj and isinstance(proj[0], dict) and "f" in proj[0]:
+        # `(a, &mut b).1` is `&mut b`: a tuple built only to be matched on
+        i = proj[0]["f"]
+        if isinstance(i, int) and i < len(rv["ops"]):
+            src = op_place(rv["ops"][i])
+            if src is not None:
+                new = {"l": src["l"], "p": list(src["p"]) + proj[1:]}
+                return canon_place(body, new, depth + 1)
     return pl
 
 
